@@ -170,6 +170,55 @@ def abstract_trace(path, out):
     return ops
 
 
+def path_spellings(r, stats):
+    """the output path as a user may type it - relative, with a redundant ./ or sub/../, with a leading ~ - for both steps: two runs
+    in a row (the inputs touched in between); whatever file the first run published, the second run must leave every file of the
+    directory tree untouched and create none"""
+    def tree(d):
+        out = {}
+        for root, _, files in os.walk(d):
+            for f in files:
+                p = os.path.join(root, f)
+                if "/in/" in p + "/":
+                    continue
+                st = os.stat(p)
+                out[os.path.relpath(p, d)] = (open(p, "rb").read(), st.st_mtime_ns, st.st_ino)
+        return out
+    for step in ("update_evidence", "andromeda2pin"):
+        for spelling in ("relative", "dot_slash", "dotdot", "tilde"):
+            d = tempfile.mkdtemp(prefix=f"c16p_{step}_", dir=core.scratch())
+            ind = os.path.join(d, "in")
+            os.makedirs(ind, exist_ok=True)
+            argv, out = step_inputs(step, ind, r.rng, 0)
+            name = os.path.basename(out)
+            for sub in ("out", "home/out", "~/out", "sub"):
+                os.makedirs(os.path.join(d, sub), exist_ok=True)
+            typed = {"relative": f"out/{name}", "dot_slash": f"./out/./{name}", "dotdot": f"sub/../out/{name}", "tilde": f"~/out/{name}"}[spelling]
+            argv = [typed if a == out else a for a in argv]
+            env = dict(os.environ, HOME=os.path.join(d, "home"))
+            cmd = [sys.executable, "-W", "ignore", "-c", DRIVER, step, "none", "0"] + argv
+            p1 = subprocess.run(cmd, stdout=subprocess.PIPE, stderr=subprocess.PIPE, text=True, timeout=300, cwd=d, env=env)
+            first = tree(d)
+            if p1.returncode != 0 or not any(k.endswith(name) for k in first):
+                r.violation("harness-error", {"step": step, "typed": typed, "stderr": p1.stderr[-400:]}, False,
+                            f"{step}: run with the output typed as {typed} failed")
+                return
+            t = max(v[1] for v in first.values()) / 1e9
+            for a in argv:
+                if os.path.isfile(a):
+                    os.utime(a, (t + 10, t + 10))
+            subprocess.run(cmd, stdout=subprocess.PIPE, stderr=subprocess.PIPE, text=True, timeout=300, cwd=d, env=env)
+            stats["path_spelling_reruns"] = stats.get("path_spelling_reruns", 0) + 1
+            second = tree(d)
+            if second != first:
+                changed = sorted(k for k in set(first) | set(second) if first.get(k) != second.get(k))
+                r.violation("property-failure", {"suite": "path_spellings", "step": step, "output_typed_as": typed, "argv": argv,
+                                                 "files_changed_or_created_by_the_second_run": changed}, True,
+                            f"{step}: with the output typed as {typed} a second run touched {changed} (published by the first run)")
+                return
+            shutil.rmtree(d, ignore_errors=True)
+
+
 def run(r: core.Runner):
     r.assumptions += [
         "PARTIAL: POSIX rename() is atomic and data written before close() survives process death (SIGKILL) - runtime facts the "
@@ -272,6 +321,7 @@ def run(r: core.Runner):
     import concurrent.futures
     with concurrent.futures.ThreadPoolExecutor(max_workers=8) as ex:
         list(ex.map(process, items))
+    path_spellings(r, stats)
     r.evaluations = stats["kill_runs"] + stats["traces"] + stats["existing_output_runs"]
     r.traces = stats["traces"] + stats["kill_runs"]
     for kp in range(stats["kill_runs"]):
